@@ -16,6 +16,7 @@
  *        h NON GET /h (the handler takes an application reference)
  *        b NON GET /b (large body, block 0)   n NON GET /b Block2 num 1
  *        B NON GET /b Block2 num 1 with an ETag that does not match
+ *        z Z Y  GET /o?a, /o, /oc Observe:1 with a token that differs from the registration's
  *        u w GET /o?a, /o?b Observe:0 with other tokens (several observations of one resource by
  *          one peer)   U GET /oc?a Observe:0   y GET /o?a Observe:1
  *        x 3-byte runt         v wrong protocol version     e empty CON (ping)
@@ -39,6 +40,10 @@
  * Client histories:  sc <seed> <op>*   (a context without endpoint; slots i = 0..15)
  *   new:<i>           coap_new_client_session to 127.0.0.1:(6000+i); the application owns the
  *                     initial reference
+ *   newl:<i>          the same with an explicit local address and port
+ *   dup:<i>           a second coap_new_client_session with slot i's local and remote address
+ *                     (must be refused), then coap_session_get_by_peer for that peer:
+ *                     G:<slot>:<sid of slot>:<sid found>
  *   send:<i>:<c|n>    CON / NON GET /r on slot i (only while the application holds a reference)
  *   resp:<i> rst:<i>  piggybacked 2.05 / RST for the oldest unanswered CON request of slot i
  *   ref:<i> rel:<i> relall adv:<ms> prep free     as above
@@ -168,9 +173,22 @@ static void holders_of(const coap_session_t *s, int *nq, int *nobs, int *nasync)
 #endif
 }
 
+static int creating = 0;          /* a session creation that may be refused is under way */
+static uintptr_t creating_hp = 0;
+static void register_session(uintptr_t hp) {
+  if (nsess < MAXS) {
+    sess[nsess].hp = hp;
+    sess[nsess].live = 1;
+    nsess++;
+  }
+}
 static void on_alloc(int type, void *p, uint32_t id, size_t size) {
   (void)id; (void)size;
   if (type != COAP_SESSION) return;
+  if (creating) {               /* numbered only if the creation succeeds */
+    creating_hp = VA_HP(p);
+    return;
+  }
   if (nsess < MAXS) {
     sess[nsess].hp = VA_HP(p);
     sess[nsess].live = 1;
@@ -582,6 +600,10 @@ static void run_history(void) {
       case 'w': mk_query = "b"; mk_tokv = 2; n = mk_request(b, p, 0, "o", 0, -1, -1); break;
       case 'U': mk_query = "a"; mk_tokv = 1; n = mk_request(b, p, 0, "oc", 0, -1, -1); break;
       case 'y': mk_query = "a"; mk_tokv = 1; n = mk_request(b, p, 0, "o", 1, -1, -1); break;
+      /* cancel (Observe:1) with a token other than the one used to register */
+      case 'z': mk_query = "a"; mk_tokv = 3; n = mk_request(b, p, 0, "o", 1, -1, -1); break;
+      case 'Z': mk_tokv = 3; n = mk_request(b, p, 0, "o", 1, -1, -1); break;
+      case 'Y': mk_tokv = 3; n = mk_request(b, p, 0, "oc", 1, -1, -1); break;
       case 'D': n = mk_request(b, p, 0, "oc", 1, -1, -1); break;
       case 'a': n = mk_request(b, p, 1, "a", -1, -1, -1); break;
       case 'h': n = mk_request(b, p, 0, "h", -1, -1, -1); break;
@@ -719,6 +741,7 @@ static void c_on_free(int type, void *p, uint32_t id) {
   if (type != COAP_SESSION) return;
   coap_session_t *s = (coap_session_t *)p;
   int sid = sid_of(s);
+  if (!sid && creating) return;      /* the refused session object itself */
   int nq, nobs, nasync;
   holders_of(s, &nq, &nobs, &nasync);
   emit("F:%d:%u:%d:%d:%d:%d:%d", sid, s->ref, nq, nobs, nasync, c_napp_of(s), s->delayqueue == NULL);
@@ -821,20 +844,49 @@ static void run_client_history(void) {
 
   for (int t = 2; t < vntok && g_ctx; t++) {
     char *op = vtok[t];
-    if (!strncmp(op, "new:", 4)) {
-      int i = atoi(op + 4);
+    if (!strncmp(op, "new:", 4) || !strncmp(op, "newl:", 5)) {
+      int explicit_local = op[3] == 'l';
+      int i = atoi(op + (explicit_local ? 5 : 4));
       if (i < 0 || i >= MAXC || c_refs[i] > 0) continue;
       coap_session_t *old = c_sess(i);
       if (old && sid_of(old)) continue;     /* still alive (a queued message holds it) */
-      coap_address_t a;
+      coap_address_t a, l;
       vn_addr4(&a, VN_LOOPBACK, (uint16_t)(6000 + i));
-      coap_session_t *s = coap_new_client_session(g_ctx, NULL, &a, COAP_PROTO_UDP);
+      /* explicit local address and port (bound with SO_REUSEADDR, so that only libcoap's own
+       * 4-tuple check refuses a duplicate) */
+      vn_addr4(&l, VN_LOOPBACK, (uint16_t)(20000 + ((unsigned)getpid() * 16u) % 30000u + (unsigned)i));
+      creating = 1;
+      creating_hp = 0;
+      coap_session_t *s = coap_new_client_session(g_ctx, explicit_local ? &l : NULL, &a, COAP_PROTO_UDP);
+      creating = 0;
       if (s) {
+        register_session(VA_HP(s));
         c_hp[i] = VA_HP(s);
         c_refs[i] = 1;
         c_answered[i] = vn_nout;
         emit("NC:%d", sid_of(s));
       }
+    } else if (!strncmp(op, "dup:", 4)) {
+      /* a second session with the same local and remote address must be refused, and the
+       * refusal must not disturb the sessions that exist */
+      int i = atoi(op + 4);
+      if (i < 0 || i >= MAXC || c_refs[i] <= 0) continue;
+      coap_session_t *s = c_sess(i);
+      coap_address_t l, r;
+      coap_address_copy(&l, &s->addr_info.local);
+      coap_address_copy(&r, &s->addr_info.remote);
+      creating = 1;
+      creating_hp = 0;
+      coap_session_t *d = coap_new_client_session(g_ctx, &l, &r, COAP_PROTO_UDP);
+      creating = 0;
+      if (d) {
+        register_session(VA_HP(d));
+        emit("U:duplicate_accepted:%d", sid_of(d));
+        n_uaf_marks++;
+        coap_session_release(d);
+      }
+      coap_session_t *g = coap_session_get_by_peer(g_ctx, &r, s->ifindex);
+      emit("G:%d:%d:%d", i, sid_of(s), g ? sid_of(g) : 0);
     } else if (!strncmp(op, "send:", 5)) {
       int i = atoi(op + 5);
       char *c = strchr(op + 5, ':');
